@@ -335,13 +335,13 @@ def main(argv=None):
         if not args.no_shrink:
             def runner_fn(c):
                 return run_case(mod, replay=c, tier=tier)
-            choices, res, nruns = shrink(runner_fn, choices, v['oracle'], None,
-                                         max_runs=1500, max_seconds=45.0)
+            choices, res, nruns = shrink(runner_fn, choices, v['oracle'], v['sig'],
+                                         max_runs=1500, max_seconds=30.0)
         else:
             res = run_case(mod, replay=choices, tier=tier)
             nruns = 1
         full = run_case(mod, replay=choices, tier=tier, keep_labels=True)
-        vv = [x for x in full['verdicts'] if x['oracle'] == v['oracle']]
+        vv = [x for x in full['verdicts'] if x['oracle'] == v['oracle'] and x['sig'] == v['sig']]
         if not vv:
             print('HARNESS-ERROR nondeterminism: violation %s did not replay in-process' % v['oracle'])
             rc = max(rc, 2)
@@ -368,7 +368,9 @@ def main(argv=None):
         print('VIOLATION property=%s replay=%s' % (prop, path))
         rc = max(rc, 1)
     if len(unknown) > 6:
-        print('(%d more distinct violation signatures not minimised)' % (len(unknown) - 6))
+        print('(%d more distinct violation signatures not minimised:)' % (len(unknown) - 6))
+        for key, lst in unknown[6:40]:
+            print('  also: %s  e.g. %s' % (key, lst[0]['verdict']['msg'][:160]))
 
     if agg['harness_errors']:
         he = agg['harness_errors'][0]
